@@ -103,6 +103,25 @@ Theorem blockdep_sound_concrete :
       intersects fm ia (po_ofm p) oa = false.
 Proof. exact blockdep_core_sound. Qed.
 
+(* with the corrected geometry (top padding for the row coordinate, repo commit 08d9aae) the input
+   volume of job `off` contains the receptive field of its OFM block: all non-negative rows / columns
+   read through the dilated kernel (up to 32 x 64) by the outputs of the block; this statement was
+   false for the earlier code, which subtracted the right padding from the row coordinate *)
+Theorem first_job_volume_covers :
+  forall ar c ibd off ia,
+    0 < ar_ublock_h ar -> 0 < ar_ublock_w ar ->
+    get_first_job_input_volume ar c ibd off = Some ia ->
+    exists oc,
+      get_offset_block_coords (co_ow c) (co_oh c) (co_od c) (co_bw c) (co_bh c) (co_bd c)
+                              (off / round_up_divide (fm_d (co_ifm c)) ibd) = Some oc /\
+      (forall r, 0 <= r ->
+         py oc * co_sy c - co_pt c <= r < (py oc + co_bh c - 1) * co_sy c - co_pt c + Z.min 32 ((co_kh c - 1) * co_dy c + 1) ->
+         py (fst ia) <= r < py (snd ia)) /\
+      (forall q, 0 <= q ->
+         px oc * co_sx c - co_pl c <= q < (px oc + co_bw c - 1) * co_sx c - co_pl c + Z.min 64 ((co_kw c - 1) * co_dx c + 1) ->
+         px (fst ia) <= q < px (snd ia)).
+Proof. exact first_job_volume_covers_lemma. Qed.
+
 (* calc_blockdep returns 0 (early exits), MAX_BLOCKDEP (the producer's OFM overlaps neither
    operand's bounding ranges) or the loop result for the overlapping operand *)
 Theorem calc_blockdep_result :
@@ -194,6 +213,7 @@ Print Assumptions conflicts_spec.
 Print Assumptions access_set_add.
 Print Assumptions blockdep_sound.
 Print Assumptions blockdep_sound_concrete.
+Print Assumptions first_job_volume_covers.
 Print Assumptions calc_blockdep_result.
 Print Assumptions calc_blockdep_zero.
 Print Assumptions footprint_overapprox.
